@@ -16,7 +16,8 @@ Isolated worktrees as in seedrun.py.
 """
 import json, os, subprocess, sys, glob, time
 ROOT = os.path.dirname(os.path.dirname(os.path.abspath(__file__)))
-RUN, REPO = "/tmp/w/ben-verif", "/tmp/w/ben-repo"
+SLOT = os.environ.get("BEN_SLOT", "")          # several runs side by side: each slot has its own scratch worktrees
+RUN, REPO = "/tmp/w/ben-verif" + SLOT, "/tmp/w/ben-repo" + SLOT
 ENV = dict(os.environ, GOFLAGS="-mod=mod", GOPROXY="off", GOSUMDB="off", GOTOOLCHAIN="local", VERIF_REPO=REPO)
 PKG_PROPS = {
     "rtmp/": ["C01", "C02", "C03", "C04", "C07", "C08"], "amf0/": ["C05", "C06", "C03", "C07"],
